@@ -226,6 +226,52 @@ def gen_case(rng, api, n, kind, dist, cmode, periodic=True, pattern=None):
     return case
 
 
+def gen_coincident_case(rng, api, kind, pattern=None):
+    """distinct atoms at minimum-image distance exactly 0: same coordinates (a virtual site on its host) and exact
+    lattice translates (along every cell vector that lies on the coordinate grid); for compute_neighbors the pair is split
+    over query and haystack in every way (disjoint, overlapping, both in both)"""
+    n = rng.choice([2, 3, 5, 8, 13])
+    case = gen_case(rng, api, n, kind, rng.choice(["uniform", "outside", "faces"]), rng.choice(["tiny", "mid", "half"]), True, pattern=pattern)
+    xyz = case["xyz"]
+    cell = case["cell"]
+    vecs = []
+    if cell is not None:
+        L, A = cell["lengths"], cell["angles"]
+        vecs.append([L[0], 0, 0])                                  # a is always on the grid
+        if A[2] == 90.0:
+            vecs.append([0, L[1], 0])
+        if A[0] == 90.0 and A[1] == 90.0:
+            vecs.append([0, 0, L[2]])
+    pairs = []
+    for _ in range(rng.choice([1, 1, 2, 3])):
+        i, j = rng.sample(range(n), 2) if n >= 2 else (0, 0)
+        sh = [0, 0, 0]
+        if vecs and rng.random() < 0.6:
+            v = rng.choice(vecs)
+            k = rng.choice([-2, -1, 1, 2])
+            sh = [k * x for x in v]
+        xyz[j] = [xyz[i][d] + sh[d] for d in range(3)]
+        pairs.append((i, j))
+    case["dist"] = "coincident"
+    if api == "nb":
+        i, j = pairs[0]
+        rest = [k for k in range(n) if k not in (i, j)]
+        mode = rng.choice(["disjoint", "disjoint", "overlap", "both", "default"])
+        extra_q = rng.sample(rest, rng.randint(0, min(2, len(rest))))
+        if mode == "disjoint":
+            q, hay = [i] + extra_q, [j] + [k for k in rest if k not in extra_q]
+        elif mode == "overlap":
+            q, hay = [i, j] + extra_q, [j] + rest
+        elif mode == "both":
+            q, hay = [j, i], [i, j] + rest
+        else:
+            q, hay = [i] + extra_q, None
+        if hay is not None:
+            rng.shuffle(hay)
+        case["query"], case["hay"] = q, hay
+    return case
+
+
 def build_cases(ctx, scale=1.0):
     rng = ctx.rng
     quick = ctx.tier == "quick"
@@ -233,7 +279,7 @@ def build_cases(ctx, scale=1.0):
     kinds = ["none", "cubic", "ortho", "tric", "tric", "tric"]
     dists_nl = ["uniform", "clustered", "boundary", "outside", "frac", "shifted", "faces", "faces"]
     cmodes = ["tiny", "mid", "mid", "half", "half", "above"]
-    n_small = int((250 if quick else 2500) * scale)
+    n_small = int((200 if quick else 2500) * scale)
     for _ in range(n_small):
         kind = rng.choice(kinds)
         dist = rng.choice(dists_nl)
@@ -256,8 +302,13 @@ def build_cases(ctx, scale=1.0):
             for k in range(int((2 if quick else 12) * scale) or 1):
                 cases.append(gen_case(rng, api, rng.choice([8, 12, 20, 30]), "tric", "faces" if k % 2 == 0 else rng.choice(["outside", "shifted", "uniform"]),
                                       rng.choice(["mid", "half"]), True, pattern=pat))
+    # distinct atoms at distance exactly 0 (coincident / exact lattice translates) -- in every run
+    for kind in ("none", "cubic", "ortho", "tric"):
+        for api in ("nb", "nb", "nl"):
+            for _ in range(int((3 if quick else 25) * scale) or 1):
+                cases.append(gen_coincident_case(rng, api, kind))
     # medium and large frames
-    med = [(200, 6), (600, 2)] if quick else [(200, 40), (600, 12), (1500, 4)]
+    med = [(200, 5), (600, 1)] if quick else [(200, 40), (600, 12), (1500, 4)]
     for n, cnt in med:
         for _ in range(int(cnt * scale) or 1):
             kind = rng.choice(["none", "cubic", "ortho", "tric"])
